@@ -74,6 +74,8 @@ func mcPlan() []*mcRun {
 		p = append(p,
 			&mcRun{module: "CmapMutex", cfg: "MC_cmap_delete.cfg", expect: "*"}, // plain Delete by a bystander: outside the quantifier, and why
 			&mcRun{module: "CtxLock", cfg: "MC_ctxlock_4g.cfg"},
+			&mcRun{module: "CmapMutex", cfg: "MC_cmap_repair_full_small.cfg"},
+			&mcRun{module: "OuterCancel", cfg: "MC_outer_g2.cfg"},
 			&mcRun{module: "OuterCancel", cfg: "MC_outer_2w.cfg"},
 			&mcRun{module: "OuterCancel", cfg: "MC_outer_2rounds.cfg"},
 		)
@@ -366,6 +368,7 @@ type trace struct {
 	schedule []string
 	crash    string
 	crashLog string
+	note     string
 	done     bool
 }
 
@@ -413,6 +416,7 @@ func runChunk(dir string, idx int, chunk []scenario, res map[int]*trace, mu *syn
 				Ev       string   `json:"ev"`
 				Sid      int      `json:"sid"`
 				Err      string   `json:"err"`
+				Note     string   `json:"note"`
 				Schedule []string `json:"schedule"`
 			}
 			if json.Unmarshal(line, &m) != nil {
@@ -424,7 +428,7 @@ func runChunk(dir string, idx int, chunk []scenario, res map[int]*trace, mu *syn
 				judged = true
 			case "end":
 				if cur != nil {
-					cur.err, cur.schedule, cur.done = m.Err, m.Schedule, true
+					cur.err, cur.schedule, cur.done, cur.note = m.Err, m.Schedule, true, m.Note
 					mu.Lock()
 					res[cur.sc.ID] = cur
 					mu.Unlock()
@@ -617,6 +621,7 @@ func TestCheck(t *testing.T) {
 	perPrim := map[string]int{}
 	inconcl := 0
 	crashes := 0
+	notes := map[string]int{} // observations outside the property
 	for _, s := range scs {
 		tr := res[s.ID]
 		if tr == nil || !tr.done {
@@ -625,6 +630,9 @@ func TestCheck(t *testing.T) {
 		}
 		if tr.crash != "" {
 			crashes++
+		}
+		if tr.note != "" {
+			notes[tr.sc.Prim+":"+tr.note]++
 		}
 		if tr.err != "" {
 			inconcl++
@@ -657,6 +665,7 @@ func TestCheck(t *testing.T) {
 	e.Set("traces_validated_against_impl", int64(b.Len()))
 	e.Set("traces_per_primitive", perPrim)
 	e.Set("process_crashes", int64(crashes))
+	e.Set("observations_outside_the_property", notes)
 	e.Set("process_crashes_not_reproduced_in_isolation", int64(unconfirmedCrashes))
 	e.Assume("FIFO-ness of the Go channel send queue is an axiom of FifoMutex.tla/FifoMap.tla (corroborated, not proved, by the traces)",
 		"lock.OuterCancel runs inside a testing/synctest bubble: time is virtual, a client records the return of its call at the instant it returned; its mutual-exclusion clauses are judged while it is running (before shutdown)",
